@@ -1,10 +1,11 @@
 ----------------------------- MODULE SerdeAttrs -----------------------------
 (* Layer P for C01/C02/C04: which serde attributes determine the wire name of a field / variant,  *)
 (* the tag and content keys of an enum, and optionality. Identifiers and names are sequences of    *)
-(* 1-character strings (module Chars); None == <<>> means "attribute absent".                       *)
+(* 1-character strings (module Chars); None (a token no name contains) means "attribute absent".   *)
 EXTENDS SerdeCase
 
-None == <<>>
+\* an EMPTY rename (serde(rename = "")) is a name like any other: the wire name is the empty string
+None == <<"<none>">>
 
 \* raw identifiers lose their r# prefix (the abstract syntax keeps `raw` as a flag, ident without prefix)
 \* field: [ident, raw, rename]   rule: the rename_all that applies to this position, or "none"
